@@ -214,7 +214,7 @@ func c20Mutations(u *vfUnit, valid vfPkt) []c20Mut {
 		}
 		orig := binary.BigEndian.Uint32(body[k:])
 		for hi, h := range c08HostileVals(orig) {
-			if u.Tier == vfQuick && (hi+k)%7 > 2 && hi != 6 && hi != 3 {
+			if u.Tier == vfQuick && (hi+k)%7 > 2 && hi != 6 && hi != 3 && hi != 7 && hi != 8 {
 				continue
 			}
 			if h == orig {
@@ -263,10 +263,10 @@ func c20Mutations(u *vfUnit, valid vfPkt) []c20Mut {
 	return out
 }
 
-var c20HostileNames = []string{"0", "1", "n-1", "n+1", "2^20", "2^31-1", "2^32-1"}
+var c20HostileNames = []string{"0", "1", "n-1", "n+1", "2^20", "2^31-1", "2^32-1", "2^29", "2^29+1", "2^30", "2^28"}
 
 func c08HostileVals(n uint32) []uint32 {
-	return []uint32{0, 1, n - 1, n + 1, 1 << 20, 1<<31 - 1, 1<<32 - 1}
+	return []uint32{0, 1, n - 1, n + 1, 1 << 20, 1<<31 - 1, 1<<32 - 1, 1 << 29, 1<<29 + 1, 1 << 30, 1 << 28}
 }
 
 // c20Once runs op against a fresh peer; the reply to the target-th request (0-based) is replaced by mut (nil = none).
